@@ -316,8 +316,18 @@ package selector
 //@   assigns nothing
 //@   ensures[C10] len(r.parentStack) == len(pc.parentStack) + 1 && r.parentStack[0] == parent
 //@   ensures[C10] forall j mathint :: 1 <= j && j < len(r.parentStack) ==> r.parentStack[j] == pc.parentStack[j-1]
+// The subset matcher: only strings and bytes can match; a string matches with exactly the bytes
+// [from, to) of the normalised bounds, and not at all when the bounds select nothing (this includes
+// every empty string); for a reader-backed bytes node the length is measured by seeking to the end
+// and the reader is then put back at offset 0, which is where the section reader's readerat
+// assumes it stands.
 //@ func (Slice).Slice(n) (r, err)
 //@   requires n != nil
+//@   ensures[C07] datamodel.vkind(n.val) != datamodel.Kind_String && datamodel.vkind(n.val) != datamodel.Kind_Bytes ==> r == nil && err == nil
+//@   ensures[C07] datamodel.vkind(n.val) == datamodel.Kind_String && !(normFrom(s.From, len(datamodel.vstr(n.val))) <= normTo(s.To, len(datamodel.vstr(n.val))) && normFrom(s.From, len(datamodel.vstr(n.val))) < len(datamodel.vstr(n.val))) ==> r == nil
+//@   before NewString assert[C07] carg0 == substr(datamodel.vstr(n.val), normFrom(s.From, len(datamodel.vstr(n.val))), normTo(s.To, len(datamodel.vstr(n.val))))
+//@   before Seek@0 assert[C07,C11] carg1 == 0 && carg2 == 2
+//@   before Seek@1 assert[C07,C11] carg1 == 0 && carg2 == 0
 
 // ---- segment iterators (C16): an iterator over the entries of a list or map value ----
 //@ ghost field SegmentIterator.src datamodel.Val
